@@ -164,7 +164,7 @@ class Attempt:
                 pass  # Flush attempt: the buffering writer offers no Flusher, nothing may reach the client early
             elif p[0] in ("r", "rc", "rn", "rp"):  # how the handler reads (ReadAll/ReadFull, io.Copy, io.CopyN, small Reads)
                 self.read = None if p[1] == "all" else int(p[1])
-            elif p[0] in ("hs", "ha", "hd"):
+            elif p[0] in ("hs", "ha", "hd", "hp", "h0", "hl"):
                 self.ops.append(p)
             elif p[0] == "u":
                 self.url = p[1]
@@ -389,7 +389,11 @@ def monitor_c15(ops, outs):
             continue
         if out.left != 0:
             bad.append("tempfile: %d temporary file(s) left after the exchange" % out.left)
-        if eff_over_request(cfg, req):
+        if not eff_over_request(cfg, req) and out.inv == 0:
+            # zero or a negative maximum means unlimited: a body within the maximum is not refused
+            bad.append("request-limit-eager: body %d within max %s (%s) answered %s without reaching the handler" % (
+                req.len, "unlimited" if not cfg.maxreq or cfg.maxreq <= 0 else cfg.maxreq, "chunked" if req.chunked else "declared", out.status))
+        elif eff_over_request(cfg, req):
             if out.status != 413 or out.inv != 0 or out.cl != "ok":
                 bad.append("request-limit: body %d > max %d (%s) answered %s with %d handler invocation(s), client %s" % (
                     req.len, cfg.maxreq, "chunked" if req.chunked else "declared", out.status, out.inv, out.cl))
@@ -463,7 +467,7 @@ def gen_cfg(rng, focus, tier):
     return "cfg " + " ".join(t), dict(maxreq=maxreq, memreq=memreq, maxresp=maxresp, memresp=memresp, expr=expr), True
 
 
-def gen_attempt(rng, c, reqlen, focus, will_retry_bias):
+def gen_attempt(rng, c, reqlen, focus, will_retry_bias, hkeys=()):
     f = []
     r = rng.random()
     if r < 0.45:
@@ -476,7 +480,9 @@ def gen_attempt(rng, c, reqlen, focus, will_retry_bias):
         f.append("%s:%d" % (rng.choice(["r", "rc", "rn", "rp"]), reqlen + rng.randint(1, 50)))
     for _ in range(rng.choice([0, 0, 1, 1, 2]) if focus == "C06" else rng.choice([0, 0, 0, 1])):
         k = rng.choice(["X-A", "X-B", "X-C", "X-N", "User-Agent", "Accept"])
-        op = rng.choice(["hs", "ha", "hd"])
+        op = rng.choice(["hs", "ha", "hd", "hp", "h0", "hl"])
+        if op in ("h0", "hl") and rng.random() < 0.8:
+            k = rng.choice(list(hkeys) + ["User-Agent"])  # in-place edits need a value that exists
         f.append("%s:%s" % (op, k) if op == "hd" else "%s:%s:m%d" % (op, k, rng.randint(0, 9)))
     if rng.random() < (0.3 if focus == "C06" else 0.08):
         f.append("u:/mut%d" % rng.randint(0, 9))
@@ -549,7 +555,7 @@ def gen_scenarios(rng, tier, focus):
             natt = rng.choice([1, 2, 3, 4, 12]) if c["expr"] is not None else rng.choice([1, 1, 2])
             bias = rng.choice([0.0, 0.3, 0.6]) if c["expr"] is not None else 0.0
             for _ in range(natt):
-                toks.append("a=" + gen_attempt(rng, c, ln, focus, bias))
+                toks.append("a=" + gen_attempt(rng, c, ln, focus, bias, [h.split(":")[0] for h in hs]))
             lines.append(" ".join(toks))
         yield lines
 
